@@ -9,6 +9,7 @@
    `sel cs` is the documented selection: the first exclusive interest of cs if there is one, else all. *)
 From Coq Require Import List ZArith Bool.
 From Ivv Require Import MT.SignalModel MT.SignalProofs MT.SignalFacts MT.SignalMon.
+From Ivv Require Gen.LeafSignal MT.SignalLink.
 Import ListNotations.
 Local Open Scope Z_scope.
 
@@ -142,6 +143,24 @@ Print Assumptions C10_signals_blocked.
 Theorem C10_invariant : forall s, reachable s -> Inv s.
 Proof. exact reachable_inv. Qed.
 Print Assumptions C10_invariant.
+
+(* THE ORDER OF THE INTEREST SETS OF THE MODEL IS THE CODE.  Gen/LeafSignal.v is regenerated on every run by gen/c2gallina.py
+   from the clang AST of the current src/iv_signal.c: the whole function iv_signal_compare (signum, then the
+   IV_SIGNAL_FLAG_EXCLUSIVE bit of ->flags -- exclusive first --, then the address of the struct; pointer comparison =
+   comparison of addresses; None = null dereference).  For all records with non-null addresses and all flag words whose bit 0
+   is i_excl it returns -1 exactly when lt_rec a b (the order `insert` of MT/SignalModel.v keeps the interest list in), 1
+   exactly when lt_rec b a, and 0 only for equal (signum, exclusive, address). *)
+Theorem C10_compare_is_the_code :
+  (forall a b fa fb, i_addr a <> 0 -> i_addr b <> 0 -> Z.odd fa = i_excl a -> Z.odd fb = i_excl b ->
+     Ivv.Gen.LeafSignal.signal_compare (i_addr a) (i_sig a) (i_addr b) (i_sig b) fa fb =
+     Some (if lt_rec a b then -1 else if lt_rec b a then 1 else 0)) /\
+  (forall a b fa fb, i_addr a <> 0 -> i_addr b <> 0 -> Z.odd fa = i_excl a -> Z.odd fb = i_excl b ->
+     (Ivv.Gen.LeafSignal.signal_compare (i_addr a) (i_sig a) (i_addr b) (i_sig b) fa fb = Some (-1) <-> lt_rec a b = true)) /\
+  (forall a b fa fb, i_addr a <> 0 -> i_addr b <> 0 -> Z.odd fa = i_excl a -> Z.odd fb = i_excl b ->
+     Ivv.Gen.LeafSignal.signal_compare (i_addr a) (i_sig a) (i_addr b) (i_sig b) fa fb = Some 0 ->
+     i_sig a = i_sig b /\ i_excl a = i_excl b /\ i_addr a = i_addr b).
+Proof. exact Ivv.MT.SignalLink.signal_link_all. Qed.
+Print Assumptions C10_compare_is_the_code.
 
 (* The full-strength monitor run on implementation logs accepts every label sequence of the model. *)
 Theorem C10_monitor_accepts : forall ls, accepts ls = true -> monitor true ls = true.
